@@ -55,7 +55,12 @@ def check_solve(case, ev):
     log = []
     sname = case["solver"]
     solver = {"marker": solvers.marker(log), "exact": solvers.exact(log, 40000), "none": solvers.none_solver}[sname]
-    res = list(call(m.solve, [dict(o) for o in objs], solver=solver, include_virtual_variables=case["virtual"], what="solve"))
+    if not case["virtual"] and len(str(case["objs"])) % 2 == 0:
+        # "omitting auto-generated helper variables UNLESS ASKED FOR": nothing is asked for when the argument is left out
+        res = list(call(m.solve, [dict(o) for o in objs], solver=solver, what="solve (include_virtual_variables left at its default)"))
+        ev.count("virtual_flag_left_at_default")
+    else:
+        res = list(call(m.solve, [dict(o) for o in objs], solver=solver, include_virtual_variables=case["virtual"], what="solve"))
     if len(res) != len(objs):
         raise Violation(f"solve returned {len(res)} results for {len(objs)} objectives")
     generated = {x.id for x in comps.values() if x.generated_id}
@@ -170,6 +175,12 @@ def check_select(case, ev):
             raise Violation(f"solver called {len(log)} times")
         if snapshot.array(log[0]["poly"]) != snapshot.array(poly):
             raise Violation("polyhedron handed to the solver differs from the configurator's ge_polyhedron")
+        # ... and that polyhedron is the model's ASSERTED one (top node required to hold), columns by id
+        import numpy as np
+        asserted = call(c.to_ge_polyhedron, True, what="to_ge_polyhedron(active=True)")
+        if np.asarray(asserted).tolist() != np.asarray(log[0]["poly"]).tolist() or [v.id for v in asserted.variables] != [v.id for v in log[0]["poly"].variables]:
+            raise Violation("the solver did not receive the model's asserted polyhedron (to_ge_polyhedron(active=True)): "
+                            f"{np.asarray(log[0]['poly']).tolist()} vs {np.asarray(asserted).tolist()}")
         if len(log[0]["objectives"]) != len(prios) or any(len(o) != len(ids) for o in log[0]["objectives"]):
             raise Violation("objective vectors do not match the number of priority dictionaries / columns")
         # user-prioritised columns must carry a weight of the right sign and dominate non-prioritised ones
@@ -200,6 +211,10 @@ def check_select(case, ev):
             if set(got) != set(keep):
                 raise Violation(f"select() reports ids {sorted(got)}, expected {sorted(keep)} (only_leafs={only_leafs})")
             vec = [int(v) for v in log[0]["objectives"][k]]
+            if not only_leafs and oracle.solver_safe(c):
+                lv_ = oracle.leaves(c)
+                if all(i in got for i in lv_) and oracle.obj_value(c, {i: got[i] for i in lv_}) != 1:
+                    raise Violation(f"with an exact solver the reported solution {got} does not satisfy the (solver-safe) configurator")
             best = max(solvers.objective_value(vec, p) for p in feas)
             cands = [p for p in feas if all(p[ids.index(i)] == v for i, v in got.items())]
             if not cands or max(solvers.objective_value(vec, p) for p in cands) != best:
